@@ -9,6 +9,8 @@ pub enum VC {
     Normal,
     Pos,
     Mask,
+    /// values from {+0.0, -0.0, 1, -1}
+    SignedZeros,
 }
 
 #[derive(Clone, Debug)]
@@ -836,6 +838,27 @@ pub fn t_div_rank() -> Tm {
     b.fin("divrank/x[2,3]/c[1,1,1]".into(), "ShapeArith")
 }
 
+/// Signed zeros through IdentityFusion: `y = 1 / id(x)` with `id` one of `x + 0.0`, `x - (-0.0)`,
+/// `0.0 + x`, `x * 1`, `x / 1`, `x + (-0.0)`, `x - 0.0` and inputs containing +0.0 and -0.0.
+/// IEEE: `-0.0 + 0.0 = +0.0`, so removing `x + 0.0` turns `1/(+0.0) = +inf` into `1/(-0.0) = -inf`.
+pub fn t_signed_zero(variant: usize) -> Tm {
+    let mut b = B::new();
+    let x = b.inp("x", dt::FLOAT, &fx(&[4]), true, VC::SignedZeros);
+    let (name, idv) = match variant {
+        0 => ("add+0", { let c = b.cf(&[], &[0.0]); b.op("Add", &[&x, &c]) }),
+        1 => ("sub-0", { let c = b.cf(&[], &[-0.0]); b.op("Sub", &[&x, &c]) }),
+        2 => ("0+x", { let c = b.cf(&[], &[0.0]); b.op("Add", &[&c, &x]) }),
+        3 => ("mul1", { let c = b.cf(&[], &[1.0]); b.op("Mul", &[&x, &c]) }),
+        4 => ("div1", { let c = b.cf(&[], &[1.0]); b.op("Div", &[&x, &c]) }),
+        5 => ("add-0", { let c = b.cf(&[], &[-0.0]); b.op("Add", &[&x, &c]) }),
+        _ => ("sub+0", { let c = b.cf(&[], &[0.0]); b.op("Sub", &[&x, &c]) }),
+    };
+    let one = b.cf(&[], &[1.0]);
+    let y = b.op("Div", &[&one, &idv]);
+    b.out(&y, dt::FLOAT);
+    b.fin(format!("signedzero/{name}"), "Identity")
+}
+
 /// Both softmax fusions at once: `Where(IsNaN(P), 0, P)` with `P = Softmax(Add(qk, mask))`.
 /// Pass 1: SafeSoftmax -> Softmax{flush}; pass 2: AddSoftmax must inherit the flag.
 pub fn t_safe_add_softmax(qs: &[usize], ms: &[usize], axis: i64, swap: bool, declare: bool) -> Tm {
@@ -1363,6 +1386,9 @@ pub fn all_templates(rng: &mut Rng, thorough: bool) -> Vec<Tm> {
     // epsilon of rank 3 with a valid scale
     v.push(t_layernorm(&[2, 4], -1, -1, 1, true, &[4], true, 3, true));
     v.push(t_rmsnorm(&[2, 4], -1, 1, true, &[4], 3));
+    for variant in 0..7 {
+        v.push(t_signed_zero(variant));
+    }
     // ---- chains of fusions across passes
     for swap in [false, true] {
         for declare in [true, false] {
